@@ -12,3 +12,4 @@ for ID in ${IDS//,/ }; do
   VERIF_REPO=$D /verif/check $ID --tier $TIER 2>&1 | grep -E "^(VIOLATION|C[0-9]+ |INFRA|  )" | head -${MUT_LINES:-6}
 done
 git -C /repo worktree remove --force $D
+[ -n "${KEEP:-}" ] || rm -rf /verif/.work/alt-$(printf %s "$D" | sha256sum | cut -c1-10)
